@@ -29,6 +29,11 @@ def floors(tier):
     return {'compared': 3000, 'len:join_kinds': 8, 'len:setops': 4, 'dml_compared': 300, 'len:targets_executed': 2, 'ordered_compared': 300}
 
 
+def ceilings(tier):
+    # fractions of all evaluations; the unchanged tree stays below about two thirds of each
+    return {'unsupported:*': 0.07, 'not_executable_here:*': 0.03}
+
+
 def norm_rows(rows):
     return sorted(rows, key=repr)
 
